@@ -7,6 +7,7 @@ import (
 
 	"github.com/ozontech/file.d/logger"
 	"github.com/ozontech/file.d/metric"
+	"github.com/ozontech/file.d/verifhook"
 )
 
 type BatchStatus byte
@@ -205,6 +206,7 @@ func (b *Batcher) work() {
 		if batch.hasIterableEvents {
 			now := time.Now()
 			b.opts.OutFn(&data, batch)
+			verifhook.Point("batcher.afterOut")
 			b.batchOutFnSeconds.Observe(time.Since(now).Seconds())
 		}
 
@@ -240,6 +242,7 @@ func (b *Batcher) commitBatch(batch *Batch) BatchStatus {
 	// like .Root, .streamName, .Buf
 
 	now := time.Now()
+	verifhook.Point("batcher.beforeCommitWait")
 	// let's restore the sequence of batches to make sure input will commit offsets incrementally
 	b.seqMu.Lock()
 	for b.commitSeq != batchSeq {
@@ -271,6 +274,7 @@ func (b *Batcher) heartbeat() {
 
 		batch := b.getBatch()
 		b.trySendBatchAndUnlock(batch)
+		verifhook.Point("batcher.tick")
 
 		time.Sleep(time.Millisecond * 100)
 	}
@@ -301,6 +305,7 @@ func (b *Batcher) trySendBatchAndUnlock(batch *Batch) {
 	b.outSeq++
 	b.batch = nil
 	b.mu.Unlock()
+	verifhook.Point("batcher.afterUnlock")
 
 	b.fullBatches <- batch
 }
